@@ -36,6 +36,8 @@ macro_rules! int_suite {
         fn $fname(cfg: &Cfg, rng: &mut Rng, out: &mut dyn Write) {
             let bytes_of = |x: $N| -> Vec<u8> { x.to_le_bytes().to_vec() };
             let codec = |x: $N, out: &mut dyn Write| {
+                // the case is on the output before the library is called: a call that aborts or never returns is identified by its line
+                write!(out, "PC {} {} {} {} => ", $be as u8, $n, $sign, hex(&bytes_of(x))).unwrap(); out.flush().unwrap();
                 let p = <$P>::from(x);
                 let stored = p.to_bytes();
                 let back: $N = p.into();
@@ -45,7 +47,7 @@ macro_rules! int_suite {
                     && ToPrimitive::to_u64(&p) == ToPrimitive::to_u64(&x) && ToPrimitive::to_i64(&p) == ToPrimitive::to_i64(&x) && ToPrimitive::to_usize(&p) == ToPrimitive::to_usize(&x)
                     && p.is_zero() == (x == 0)
                     && <$P as FlatBase>::ALIGN == 1 && std::mem::align_of::<$P>() == 1 && std::mem::size_of::<$P>() == $n && <$P as flatty::FlatSized>::SIZE == $n;
-                writeln!(out, "PC {} {} {} {} => bytes={} back={} rt={} al={} sz={} u64={} i64={} usize={} nat={}", $be as u8, $n, $sign, hex(&bytes_of(x)),
+                writeln!(out, "bytes={} back={} rt={} al={} sz={} u64={} i64={} usize={} nat={}",
                     hex(&stored), hex(&bytes_of(back)), hex(&rt), <$P as FlatBase>::ALIGN, std::mem::size_of::<$P>(),
                     opt(ToPrimitive::to_u64(&p)), opt(ToPrimitive::to_i64(&p)), opt(ToPrimitive::to_usize(&p)), nat as u8).unwrap();
             };
@@ -58,8 +60,9 @@ macro_rules! int_suite {
                 for _ in 0..(if cfg.thorough { 20000 } else { 2000 }) { codec(rng.next() as $N, out); }
             }
             // constants
+            write!(out, "PK {} {} {} consts => ", $be as u8, $n, $sign).unwrap(); out.flush().unwrap();
             let consts_ok = <$P>::zero() == <$P>::from(0 as $N) && <$P>::one() == <$P>::from(1 as $N) && <$P>::min_value() == <$P>::from(<$N>::MIN) && <$P>::max_value() == <$P>::from(<$N>::MAX);
-            writeln!(out, "PK {} {} {} consts => zero={} one={} min={} max={} nat={}", $be as u8, $n, $sign, hex(&<$P>::zero().to_bytes()), hex(&<$P>::one().to_bytes()), hex(&<$P>::min_value().to_bytes()), hex(&<$P>::max_value().to_bytes()), consts_ok as u8).unwrap();
+            writeln!(out, "zero={} one={} min={} max={} nat={}", hex(&<$P>::zero().to_bytes()), hex(&<$P>::one().to_bytes()), hex(&<$P>::min_value().to_bytes()), hex(&<$P>::max_value().to_bytes()), consts_ok as u8).unwrap();
             // binary operators, ordering, equality
             let mut pairs: Vec<($N, $N)> = vec![];
             for a in &boundary { for b in &boundary { pairs.push((*a, *b)); } }
@@ -70,19 +73,22 @@ macro_rules! int_suite {
             for (a, b) in pairs {
                 let (p, q) = (<$P>::from(a), <$P>::from(b));
                 for op in ["add", "sub", "mul", "div", "rem"] {
+                    write!(out, "PO {} {} {} {} {} {} => ", $be as u8, $n, $sign, op, hex(&bytes_of(a)), hex(&bytes_of(b))).unwrap(); out.flush().unwrap();
                     let r = guarded(|| match op { "add" => p + q, "sub" => p - q, "mul" => p * q, "div" => p / q, _ => p % q });
                     let rn = guarded(|| match op { "add" => a + b, "sub" => a - b, "mul" => a * b, "div" => a / b, _ => a % b });
                     let nat = match (&r, &rn) { (None, None) => true, (Some(x), Some(y)) => { let xb: $N = (*x).into(); xb == *y } _ => false };
                     let rs = match r { None => "PANIC".to_string(), Some(x) => { let xb: $N = x.into(); hex(&bytes_of(xb)) } };
-                    writeln!(out, "PO {} {} {} {} {} {} => {} nat={}", $be as u8, $n, $sign, op, hex(&bytes_of(a)), hex(&bytes_of(b)), rs, nat as u8).unwrap();
+                    writeln!(out, "{} nat={}", rs, nat as u8).unwrap();
                 }
+                write!(out, "PO {} {} {} cmp {} {} => ", $be as u8, $n, $sign, hex(&bytes_of(a)), hex(&bytes_of(b))).unwrap(); out.flush().unwrap();
                 let c = p.cmp(&q);
                 let pc = p.partial_cmp(&q);
                 let eq = p == q;
                 let nat = c == a.cmp(&b) && pc == Some(a.cmp(&b)) && eq == (p.to_bytes() == q.to_bytes()) && eq == (a == b);
-                writeln!(out, "PO {} {} {} cmp {} {} => {} eq={} nat={}", $be as u8, $n, $sign, hex(&bytes_of(a)), hex(&bytes_of(b)), match c { std::cmp::Ordering::Less => "lt", std::cmp::Ordering::Equal => "eq", _ => "gt" }, eq as u8, nat as u8).unwrap();
+                writeln!(out, "{} eq={} nat={}", match c { std::cmp::Ordering::Less => "lt", std::cmp::Ordering::Equal => "eq", _ => "gt" }, eq as u8, nat as u8).unwrap();
                 // the compound-assignment operators, `NumCast`, `Num::from_str_radix`, `Display` / `Debug` (native oracle only);
                 // the arithmetic ones only where the native operation does not overflow or divide by zero (those panic: `PO` lines)
+                write!(out, "PX {} {} {} iext {} {} => ", $be as u8, $n, $sign, hex(&bytes_of(a)), hex(&bytes_of(b))).unwrap(); out.flush().unwrap();
                 let same = |r: $P, rn: $N| { let r: $N = r.into(); r == rn };
                 let mut ext = true;
                 if let Some(rn) = a.checked_add(b) { let mut t = p; t += q; ext &= same(t, rn); }
@@ -101,21 +107,24 @@ macro_rules! int_suite {
                 }
                 ext &= <$P as num_traits::Num>::from_str_radix("zz", 10).is_err() && <$P as num_traits::Num>::from_str_radix("", 10).is_err();
                 ext &= signed_ext!($sign, $P, $N, p, q, a, b);
-                writeln!(out, "PX {} {} {} iext {} {} => nat={}", $be as u8, $n, $sign, hex(&bytes_of(a)), hex(&bytes_of(b)), ext as u8).unwrap();
+                writeln!(out, "nat={}", ext as u8).unwrap();
             }
             // conversions from the integers containers use for lengths
             let args: Vec<u64> = vec![0, 1, 0x7f, 0x80, 0xff, 0x100, 0x7fff, 0x8000, 0xffff, 0x10000, 0x7fffffff, 0x80000000, 0xffffffff, 0x100000000, 0x7fffffffffffffff, 0x8000000000000000, u64::MAX, u64::MAX - 1];
             let mut all = args.clone();
             for _ in 0..(if cfg.thorough { 2000 } else { 200 }) { all.push(rng.next() >> (rng.below(64) as u32)); }
             for v in all {
+                write!(out, "PF {} {} {} from_u64 {} => ", $be as u8, $n, $sign, hex(&v.to_le_bytes())).unwrap(); out.flush().unwrap();
                 let r = <$P as FromPrimitive>::from_u64(v); let rn = <$N as FromPrimitive>::from_u64(v);
-                writeln!(out, "PF {} {} {} from_u64 {} => {} nat={}", $be as u8, $n, $sign, hex(&v.to_le_bytes()), match r { Some(x) => { let xb: $N = x.into(); format!("some:{}", hex(&bytes_of(xb))) } None => "none".into() }, (r.map(|x| { let xb: $N = x.into(); xb }) == rn) as u8).unwrap();
+                writeln!(out, "{} nat={}", match r { Some(x) => { let xb: $N = x.into(); format!("some:{}", hex(&bytes_of(xb))) } None => "none".into() }, (r.map(|x| { let xb: $N = x.into(); xb }) == rn) as u8).unwrap();
                 let vi = v as i64;
+                write!(out, "PF {} {} {} from_i64 {} => ", $be as u8, $n, $sign, hex(&v.to_le_bytes())).unwrap(); out.flush().unwrap();
                 let r = <$P as FromPrimitive>::from_i64(vi); let rn = <$N as FromPrimitive>::from_i64(vi);
-                writeln!(out, "PF {} {} {} from_i64 {} => {} nat={}", $be as u8, $n, $sign, hex(&v.to_le_bytes()), match r { Some(x) => { let xb: $N = x.into(); format!("some:{}", hex(&bytes_of(xb))) } None => "none".into() }, (r.map(|x| { let xb: $N = x.into(); xb }) == rn) as u8).unwrap();
+                writeln!(out, "{} nat={}", match r { Some(x) => { let xb: $N = x.into(); format!("some:{}", hex(&bytes_of(xb))) } None => "none".into() }, (r.map(|x| { let xb: $N = x.into(); xb }) == rn) as u8).unwrap();
                 let vu = v as usize;
+                write!(out, "PF {} {} {} from_usize {} => ", $be as u8, $n, $sign, hex(&v.to_le_bytes())).unwrap(); out.flush().unwrap();
                 let r = <$P as FromPrimitive>::from_usize(vu); let rn = <$N as FromPrimitive>::from_usize(vu);
-                writeln!(out, "PF {} {} {} from_usize {} => {} nat={}", $be as u8, $n, $sign, hex(&v.to_le_bytes()), match r { Some(x) => { let xb: $N = x.into(); format!("some:{}", hex(&bytes_of(xb))) } None => "none".into() }, (r.map(|x| { let xb: $N = x.into(); xb }) == rn) as u8).unwrap();
+                writeln!(out, "{} nat={}", match r { Some(x) => { let xb: $N = x.into(); format!("some:{}", hex(&bytes_of(xb))) } None => "none".into() }, (r.map(|x| { let xb: $N = x.into(); xb }) == rn) as u8).unwrap();
             }
         }
     };
@@ -137,6 +146,7 @@ macro_rules! float_suite {
     ($fname:ident, $P:ty, $N:ty, $B:ty, $be:expr, $n:expr) => {
         fn $fname(cfg: &Cfg, rng: &mut Rng, out: &mut dyn Write) {
             let codec = |bits: $B, out: &mut dyn Write| {
+                write!(out, "PC {} {} f {} => ", $be as u8, $n, hex(&bits.to_le_bytes())).unwrap(); out.flush().unwrap();
                 let x = <$N>::from_bits(bits);
                 let p = <$P>::from(x);
                 let stored = p.to_bytes();
@@ -152,7 +162,7 @@ macro_rules! float_suite {
                     && <$P as FromPrimitive>::from_u64(bits as u64).map(|v| v.to_bytes()) == <$N as FromPrimitive>::from_u64(bits as u64).map(|v| <$P>::from(v).to_bytes())
                     && <$P as FromPrimitive>::from_i64(bits as i64).map(|v| v.to_bytes()) == <$N as FromPrimitive>::from_i64(bits as i64).map(|v| <$P>::from(v).to_bytes())
                     && <$P as FlatBase>::ALIGN == 1 && std::mem::align_of::<$P>() == 1 && std::mem::size_of::<$P>() == $n;
-                writeln!(out, "PC {} {} f {} => bytes={} back={} rt={} al={} sz={} nat={}", $be as u8, $n, hex(&bits.to_le_bytes()), hex(&stored), hex(&back.to_bits().to_le_bytes()), hex(&rt), <$P as FlatBase>::ALIGN, std::mem::size_of::<$P>(), nat as u8).unwrap();
+                writeln!(out, "bytes={} back={} rt={} al={} sz={} nat={}", hex(&stored), hex(&back.to_bits().to_le_bytes()), hex(&rt), <$P as FlatBase>::ALIGN, std::mem::size_of::<$P>(), nat as u8).unwrap();
             };
             let special: Vec<$N> = vec![0.0, -0.0, 1.0, -1.0, <$N>::MAX, <$N>::MIN, <$N>::MIN_POSITIVE, <$N>::INFINITY, <$N>::NEG_INFINITY, <$N>::NAN, <$N>::EPSILON, 0.1, 1e10, -2.5];
             let mut bits: Vec<$B> = special.iter().map(|x| x.to_bits()).collect();
@@ -165,11 +175,13 @@ macro_rules! float_suite {
             for a in &vals { for b in &vals {
                 let (p, q) = (<$P>::from(*a), <$P>::from(*b));
                 for op in ["add", "sub", "mul", "div", "rem"] {
+                    write!(out, "PX {} {} f {} {} {} => ", $be as u8, $n, op, hex(&a.to_bits().to_le_bytes()), hex(&b.to_bits().to_le_bytes())).unwrap(); out.flush().unwrap();
                     let r: $N = match op { "add" => p + q, "sub" => p - q, "mul" => p * q, "div" => p / q, _ => p % q }.into();
                     let rn: $N = match op { "add" => a + b, "sub" => a - b, "mul" => a * b, "div" => a / b, _ => a % b };
                     let nat = r.to_bits() == rn.to_bits() || (r.is_nan() && rn.is_nan());
-                    writeln!(out, "PX {} {} f {} {} {} => nat={}", $be as u8, $n, op, hex(&a.to_bits().to_le_bytes()), hex(&b.to_bits().to_le_bytes()), nat as u8).unwrap();
+                    writeln!(out, "nat={}", nat as u8).unwrap();
                 }
+                write!(out, "PX {} {} f cmp {} {} => ", $be as u8, $n, hex(&a.to_bits().to_le_bytes()), hex(&b.to_bits().to_le_bytes())).unwrap(); out.flush().unwrap();
                 let assign_ok = {
                     let same = |r: $P, rn: $N| { let r: $N = r.into(); r.to_bits() == rn.to_bits() || (r.is_nan() && rn.is_nan()) };
                     let mut t = p; t += q; let o1 = same(t, a + b);
@@ -180,15 +192,16 @@ macro_rules! float_suite {
                     o1 && o2 && o3 && o4 && o5
                 };
                 let nat = assign_ok && p.partial_cmp(&q) == a.partial_cmp(b) && (p == q) == (p.to_bytes() == q.to_bytes()) && (-p).to_bytes() == <$P>::from(-*a).to_bytes();
-                writeln!(out, "PX {} {} f cmp {} {} => nat={}", $be as u8, $n, hex(&a.to_bits().to_le_bytes()), hex(&b.to_bits().to_le_bytes()), nat as u8).unwrap();
+                writeln!(out, "nat={}", nat as u8).unwrap();
             } }
+            write!(out, "PX {} {} f consts - - => ", $be as u8, $n).unwrap(); out.flush().unwrap();
             let radix_ok = ["0", "-0", "1.5", "-2.25", "1e3", "inf", "nan", "x", "", "7"].iter().all(|t| {
                 let a = <$P as num_traits::Num>::from_str_radix(t, 10).ok().map(|v| { let n: $N = v.into(); n.to_bits() });
                 let b = <$N as num_traits::Num>::from_str_radix(t, 10).ok().map(|v| v.to_bits());
                 a == b || (a.is_some() && b.is_some() && <$N>::from_bits(a.unwrap()).is_nan() && <$N>::from_bits(b.unwrap()).is_nan())
             });
             let consts_ok = radix_ok && <$P>::zero().to_bytes() == <$P>::from(0.0 as $N).to_bytes() && <$P>::one().to_bytes() == <$P>::from(1.0 as $N).to_bytes() && <$P>::min_value().to_bytes() == <$P>::from(<$N>::MIN).to_bytes() && <$P>::max_value().to_bytes() == <$P>::from(<$N>::MAX).to_bytes();
-            writeln!(out, "PX {} {} f consts - - => nat={}", $be as u8, $n, consts_ok as u8).unwrap();
+            writeln!(out, "nat={}", consts_ok as u8).unwrap();
         }
     };
 }
@@ -206,15 +219,17 @@ pub fn run(cfg: &Cfg, out: &mut dyn Write) {
     le_f32(cfg, &mut rng, out); le_f64(cfg, &mut rng, out); be_f32(cfg, &mut rng, out); be_f64(cfg, &mut rng, out);
     // Bool: stored byte, operators, validation of every byte value
     for a in [false, true] { for b in [false, true] {
+        write!(out, "PB ops {} {} => ", a as u8, b as u8).unwrap(); out.flush().unwrap();
         let (p, q) = (Bool::from(a), Bool::from(b));
         let nat = bool::from(!p) == !a && bool::from(p & q) == (a & b) && bool::from(p | q) == (a | b) && bool::from(p ^ q) == (a ^ b)
             && p.as_bytes() == [a as u8] && (p == q) == (a == b) && p.cmp(&q) == a.cmp(&b) && std::mem::size_of::<Bool>() == 1 && <Bool as FlatBase>::ALIGN == 1 && Bool::default() == Bool::False;
         let assign = { let mut t = p; t &= q; let o1 = bool::from(t) == (a & b); let mut t = p; t |= q; let o2 = bool::from(t) == (a | b); let mut t = p; t ^= q; o1 && o2 && bool::from(t) == (a ^ b) };
         let nat = nat && assign && format!("{:?}", p) == format!("{:?}", if a { Bool::True } else { Bool::False });
-        writeln!(out, "PB ops {} {} => stored={} nat={}", a as u8, b as u8, hex(p.as_bytes()), nat as u8).unwrap();
+        writeln!(out, "stored={} nat={}", hex(p.as_bytes()), nat as u8).unwrap();
     } }
     for v in 0..=255u8 {
+        write!(out, "PB validate {} - => ", v).unwrap(); out.flush().unwrap();
         let r = Bool::validate(&[v]);
-        writeln!(out, "PB validate {} - => {} nat={}", v, if r.is_ok() { "ok" } else { "err" }, (r.is_ok() == (v <= 1)) as u8).unwrap();
+        writeln!(out, "{} nat={}", if r.is_ok() { "ok" } else { "err" }, (r.is_ok() == (v <= 1)) as u8).unwrap();
     }
 }
